@@ -514,6 +514,36 @@ def C_interrupts(t0, T, k0, k1, k2, d0, d1, d2, use_poll, other):
     return 3
 
 
+@obligation(params=dict(k=Int(0, 5), ready=Bool()), tags={2: 'ready', 3: 'timed out'}, timeout=100,
+            note='C: seconds -> milliseconds conversion of poll_ignore_interrupts on fractional timeouts (six exactly '
+                 'representable values; the integer-tick obligations cannot see sub-second truncation)')
+def C2_poll_units(k, ready):
+    T = [0.25, 0.5, 0.75, 1.5, 2.75, 3.125][pick(k, 0, 5)]
+    seen = []
+
+    class _Poller:
+        def register(self, fd, mask):
+            pass
+
+        def poll(self, ms=None):
+            seen.append(ms)
+            return [(7, 1)] if ready else []
+
+    class _Sel:
+        POLLIN = POLLPRI = POLLHUP = POLLERR = 1
+
+        @staticmethod
+        def poll():
+            return _Poller()
+    with patched(U, select=_Sel, time=Clock(0)):
+        r = U.poll_ignore_interrupts([7], T)
+    if len(seen) != 1 or seen[0] != T * 1000:
+        return 0
+    if r != ([7] if ready else []):
+        return 0
+    return 2 if ready else 3
+
+
 # ------------------------------------------------------------------ D
 class _EchoPty:
     def __init__(self, off_at, clk):
@@ -577,6 +607,7 @@ def dry_runs():
     yield 'C_interrupts', dict(t0=0, T=5, k0=0, k1=1, k2=2, d0=2, d1=1, d2=0, use_poll=False, other=False)
     yield 'C_interrupts', dict(t0=0, T=5, k0=0, k1=2, k2=2, d0=2, d1=1, d2=0, use_poll=True, other=False)
     yield 'D_waitnoecho', dict(t0=0, T=3, tmode=2, off=2)
+    yield 'C2_poll_units', dict(k=1, ready=False)
 
 
 MANIFEST_ENTRY = {
